@@ -197,9 +197,9 @@ def extract_awkward_behaviors(repo=None):
                 val = _Sub(env).visit(copy.deepcopy(st.value))
                 if isinstance(val, ast.Lambda):
                     n, txt = _lambda_text(val)
-                    table[key] = (n, txt, st.lineno)
+                    table[key] = (n, txt, st.lineno, val)
                 else:
-                    table[key] = (None, unparse(val), st.lineno)
+                    table[key] = (None, unparse(val), st.lineno, val)
             elif isinstance(st, ast.For) and isinstance(st.iter, ast.Tuple):
                 for item in st.iter.elts:
                     env2 = dict(env)
